@@ -28,19 +28,19 @@ class ToolError(Exception):
 # view: which observation channels are compared between model and implementation
 # level: evidence level category
 PROPS = {
-    "C01": dict(extra=["enum"], profiles=["core", "alloc", "value", "big"], level="proof", props=["C01", "SRCrel", "SRCops", "SRCalloc", "INVid", "INVrelations", "INVsiblings_range", "INVnode"]),
-    "C02": dict(extra=["enum", "deep"], profiles=["core", "iters"], level="proof", props=["C02", "SRCrel", "SRCops", "SRCalloc", "SRCtrav", "INVid", "INVrelations", "INVsiblings_range", "INVtraverse"]),
-    "C03": dict(extra=["enum"], profiles=["core", "value"], level="proof", props=["C03", "SRCrel", "SRCops", "SRCalloc", "INVid", "INVrelations", "INVsiblings_range"]),
-    "C04": dict(extra=["enum", "genwrap"], profiles=["core", "alloc", "big"], level="proof", props=["C04", "SRCrel", "SRCops", "SRCalloc", "INVid", "INVrelations", "INVsiblings_range"]),
-    "C05": dict(extra=["enum"], profiles=["core", "alloc"], level="proof", props=["C05", "SRCrel", "SRCops", "SRCalloc", "INVid", "INVrelations", "INVsiblings_range", "INVerror"]),
-    "C06": dict(profiles=["alloc", "core"], level="proof", extra=["stamps", "genwrap"], props=["C06", "SRCalloc", "SRCops", "INVid", "INVarena", "INVnode"]),
-    "C07": dict(extra=["enum", "genwrap"], profiles=["alloc", "core", "big"], level="proof", props=["C07", "SRCalloc", "SRCops", "INVarena", "INVnode"]),
-    "C08": dict(extra=["enum", "genwrap"], profiles=["alloc", "core", "value", "big"], level="proof", props=["C08", "SRCalloc", "SRCops", "INVarena", "INVnode"]),
+    "C01": dict(extra=["enum"], profiles=["core", "alloc", "value", "big"], level="proof", props=["C01", "SRCrel", "SRCops", "SRCalloc", "SRCstep", "INVid", "INVrelations", "INVsiblings_range", "INVnode"]),
+    "C02": dict(extra=["enum", "deep"], profiles=["core", "iters"], level="proof", props=["C02", "SRCrel", "SRCops", "SRCalloc", "SRCstep", "SRCtrav", "INVid", "INVrelations", "INVsiblings_range", "INVtraverse"]),
+    "C03": dict(extra=["enum"], profiles=["core", "value"], level="proof", props=["C03", "SRCrel", "SRCops", "SRCalloc", "SRCstep", "INVid", "INVrelations", "INVsiblings_range"]),
+    "C04": dict(extra=["enum", "genwrap"], profiles=["core", "alloc", "big"], level="proof", props=["C04", "SRCrel", "SRCops", "SRCalloc", "SRCstep", "INVid", "INVrelations", "INVsiblings_range"]),
+    "C05": dict(extra=["enum"], profiles=["core", "alloc"], level="proof", props=["C05", "SRCrel", "SRCops", "SRCalloc", "SRCstep", "INVid", "INVrelations", "INVsiblings_range", "INVerror"]),
+    "C06": dict(profiles=["alloc", "core"], level="proof", extra=["stamps", "genwrap"], props=["C06", "SRCalloc", "SRCops", "SRCstep", "INVid", "INVarena", "INVnode"]),
+    "C07": dict(extra=["enum", "genwrap"], profiles=["alloc", "core", "big"], level="proof", props=["C07", "SRCalloc", "SRCops", "SRCstep", "INVarena", "INVnode"]),
+    "C08": dict(extra=["enum", "genwrap"], profiles=["alloc", "core", "value", "big"], level="proof", props=["C08", "SRCalloc", "SRCops", "SRCstep", "INVarena", "INVnode"]),
     "C09": dict(profiles=["iters"], level="proof", props=["C09", "C09src", "SRCtrav", "INVtraverse"]),
     "C10": dict(profiles=["iters", "core"], level="proof", props=["C10", "C09src", "SRCtrav", "INVtraverse", "INVnode", "INVarena"]),
     "C11": dict(profiles=["core", "alloc"], level="proof", extra=["selfcheck", "genwrap"], props=["C11", "SRCalloc", "INVarena", "INVnode", "INVid"]),
-    "C12": dict(extra=["enum", "genwrap"], profiles=["core", "alloc", "big"], level="proof", props=["C12", "SRCrel", "SRCops", "SRCalloc", "INVid", "INVrelations", "INVsiblings_range"]),
-    "C13": dict(profiles=["value", "core"], level="proof", extra=["selfcheck", "determinism"], props=["C13", "SRCalloc", "SRCops", "INVarena", "INVnode"]),
+    "C12": dict(extra=["enum", "genwrap"], profiles=["core", "alloc", "big"], level="proof", props=["C12", "SRCrel", "SRCops", "SRCalloc", "SRCstep", "INVid", "INVrelations", "INVsiblings_range"]),
+    "C13": dict(profiles=["value", "core"], level="proof", extra=["selfcheck", "determinism"], props=["C13", "SRCalloc", "SRCops", "SRCstep", "INVarena", "INVnode"]),
     "C14": dict(profiles=["print"], level="proof", extra=["printdeep"], props=["C14", "SRCtrav", "INVdebug_pretty_print", "INVtraverse"]),
     "C15": dict(profiles=[], level="proof", extra=["macro"], props=["C15", "INVmacros_lib"]),
     "C16": dict(profiles=["serde"], level="proof", props=["C16", "INVarena", "INVnode", "INVid"]),
@@ -240,7 +240,7 @@ def view(pid, cmd, line):
     if pid == "C01": return a_links(line) if k == "a" else None
     if pid == "C02": return a_links(line) if k == "a" else (line if k in "ridy" else None)
     if pid == "C03": return a_links(line) if k == "a" else (line if k == "e" else None)
-    if pid == "C04": return a_links(line) if k == "a" else None
+    if pid == "C04": return (a_links(line) + " ## " + a_pay(line)) if k == "a" else None      # "nothing else changes": links and payloads
     if pid == "C05": return line if k in "ra" else None
     if pid == "C06": return line if (k == "m" or line.startswith("r id")) else None
     if pid == "C07": return a_alloc(line) if k == "a" else (line if (k == "f" or line.startswith("r id")) else None)
